@@ -404,6 +404,7 @@ func (c *Channel) NewStream(ctx context.Context, desc *grpc.StreamDesc, method s
 	}()
 	cs := &inProcessClientStream{
 		ctx:            ctx,
+		cancel:         cancel,
 		cloner:         cloner,
 		svrCtx:         svrDoneCtx,
 		requests:       requests,
@@ -634,6 +635,7 @@ func (s *inProcessServerStream) RecvMsg(m interface{}) error {
 // (which runs in a separate goroutine).
 type inProcessClientStream struct {
 	ctx            context.Context
+	cancel         context.CancelFunc
 	cloner         Cloner
 	svrCtx         context.Context
 	copts          *internal.CallOptions
@@ -792,6 +794,10 @@ func (s *inProcessClientStream) ensureNoMoreLocked(m interface{}) error {
 	if err == nil {
 		s.last = &frame{err: status.Error(codes.Internal, "method should return 1 response message but server sent >1")}
 		s.state = streamStateClosed
+		// we won't be reading from the channel anymore, so we must cancel the
+		// context so that the handler's goroutine doesn't hang trying to write
+		// its remaining frames to it
+		s.cancel()
 		return s.last.err
 	}
 	if err != io.EOF {
